@@ -43,7 +43,7 @@ use crate::proto::{Ctx, attrs};
 pub fn meta() -> Meta {
     Meta {
         level: "fault_enumeration",
-        rule: "round trip: every (kind in {bdd,bcdd,zbdd,mtbdd<i64>} x all 6 orders of 3 variables (tdd: 2 variables, both orders) x variable-name configuration (10, incl. names that equal a generated name only after sanitising) x root set (empty, every single function, all pairs of a 24-function set, 3 triples with a repeated and a constant root) x {ascii,binary} x {2.0,3.0} x {strict,lax} x root names {none, valid, to-be-sanitised}) is exported and re-imported three ways, and additionally through readers that deliver the file 1, 2, 3 and 5 bytes at a time; thorough adds n=4 (4 orders, functions with unused variables). faults: for each of the valid files every proper prefix and every position x byte of the alphabet {0x00,\\n,space,0,9,-,.,A,B,0x7f,0xff} (thorough: all 256 bytes; binary node section always all 256 values on the first 64 node bytes) plus a few hand-made oversized-count headers. A round-trip case is non-trivial when at least one root has an inner node; a mutant is non-trivial when it differs from the original file (identical substitutions are skipped and not counted).",
+        rule: "round trip: every (kind in {bdd,bcdd,zbdd,mtbdd<i64>} x all 6 orders of 3 variables (tdd: 2 variables, both orders) x variable-name configuration (10, incl. names that equal a generated name only after sanitising) x root set (empty, every single function, all pairs of a 24-function set, 3 triples with a repeated and a constant root) x {ascii,binary} x {2.0,3.0} x {strict,lax} x root names {none, valid, to-be-sanitised}) is exported and re-imported four ways (same manager; fresh manager with the order from the header; renaming onto the first variables of a manager with one more variable; renaming onto the last variables of a manager with min(2n, 6) variables, i.e. onto levels the exporting manager does not have), and additionally through readers that deliver the file 1, 2, 3 and 5 bytes at a time; thorough adds n=4 (4 orders, functions with unused variables). faults: for each of the valid files every proper prefix and every position x byte of the alphabet {0x00,\\n,space,0,9,-,.,A,B,0x7f,0xff} (thorough: all 256 bytes; binary node section always all 256 values on the first 64 node bytes) plus a few hand-made oversized-count headers. A round-trip case is non-trivial when at least one root has an inner node; a mutant is non-trivial when it differs from the original file (identical substitutions are skipped and not counted).",
         assumptions: vec![
             "original diagrams are built through DiagramRules::reduce + then_insert and read back by the harness's own interpreter".into(),
             "the fresh-manager order is reconstructed from DumpHeader::{num_vars, support_vars, support_var_to_level} only (unused variables fill the remaining levels in ascending order)".into(),
@@ -253,6 +253,28 @@ trait K15: 'static {
                         a2 = with_digit(a2, from[v as usize], d, b);
                     } else if d != 0 {
                         outside = true;
+                    }
+                }
+                if Self::ZBDD && outside { 0 } else { t[a2] }
+            })
+            .collect()
+    }
+    /// table after renaming variable `from[i]` to `to[i]` in a manager with `n2` variables
+    fn remap_to(t: &[u8], from: &[u32], to: &[u32], n2: u32) -> Tb {
+        let b = Self::BASE;
+        (0..pow(b, n2))
+            .map(|a| {
+                let mut a2 = 0;
+                let mut outside = false;
+                for v in 0..n2 {
+                    let d = digit(a, v, b);
+                    match to.iter().position(|&x| x == v) {
+                        Some(i) => a2 = with_digit(a2, from[i], d, b),
+                        None => {
+                            if d != 0 {
+                                outside = true;
+                            }
+                        }
                     }
                 }
                 if Self::ZBDD && outside { 0 } else { t[a2] }
@@ -1195,6 +1217,44 @@ fn run_case<K: K15>(env: &Env<K>, c: &Case, deep_audit: bool) -> CaseOut {
                 K::gc(m3);
                 if K::num_inner(m3) != K::baseline(n2) {
                     out.v("leak_after_import", format!("renaming manager: {} inner nodes remain after dropping the imported handles and gc (expected {})", K::num_inner(m3), K::baseline(n2)));
+                } else {
+                    clean = info.errors.is_empty();
+                }
+            }
+        }
+        env.pool.borrow_mut().give(lease, clean);
+    }
+    // ---- import into a larger manager: the support positions -> its last variables, i.e. onto levels
+    // ---- that do not exist in the exporting manager ---------------------------------------------------
+    if !sv.is_empty() {
+        // (at most 6 variables: the Boolean kinds' tables are 64-bit words)
+        let n4 = (2 * n).min(6);
+        let ident: Vec<u32> = (0..n4).collect();
+        let lease = env.pool.borrow_mut().take(&ident);
+        let m4 = lease.mref();
+        let mut clean = false;
+        let sv4: Vec<u32> = (0..sv.len() as u32).map(|i| n4 - sv.len() as u32 + i).collect();
+        let mut cur = after_header;
+        match K::import(m4, &mut cur, &header, &sv4) {
+            Err(e) => out.v("import_rejects_export", format!("import into a manager with {n4} variables (renaming {sv:?} -> {sv4:?}) rejects the exported file: {e}; file: {:?}", file_txt())),
+            Ok(got) => {
+                for (i, g) in got.iter().enumerate() {
+                    let exp = K::remap_to(&env.tabs[c.roots[i]], &sv, &sv4, n4);
+                    match K::table(g) {
+                        Ok(t) if t == exp => {}
+                        other => out.v("renamed_import_table_differs", format!("root {i}: import into a manager with {n4} variables with support_vars {sv4:?} for file positions {sv:?} denotes {:?}, expected {:?}; file: {:?}", other.map(|t| tb_json(&t, K::BOOLEAN)), tb_json(&exp, K::BOOLEAN), file_txt())),
+                    }
+                }
+                let live: Vec<&K::F> = got.iter().collect();
+                let info = K::audit(m4, &live, true);
+                if !info.errors.is_empty() {
+                    out.v("audit_fresh_manager", format!("larger manager fails the audit after import: {}", audit_msg(&info)));
+                }
+                drop(live);
+                drop(got);
+                K::gc(m4);
+                if K::num_inner(m4) != K::baseline(n4) {
+                    out.v("leak_after_import", format!("larger manager: {} inner nodes remain after dropping the imported handles and gc (expected {})", K::num_inner(m4), K::baseline(n4)));
                 } else {
                     clean = info.errors.is_empty();
                 }
